@@ -11,6 +11,7 @@ RULE = ("exhaustive strings over {a,b,-,space,tab,newline} up to length 5 (quick
 
 ALPH = "ab- \t\n\r1.é\xa0\x0b\x0c\x1c　\x85—'\"?!_"
 WORDS = ["a", "bb", "ccc", "dddd", "eeeee", "well-known", "x" * 9, "mother-in-law", "foo--bar", "a—b", "1-2", "e.g.", "é", "ß", "\xa0", "--", "-"]
+LEAN_MODULES = ['C11', 'C11b']
 
 
 def generate(rnd, tier):
